@@ -255,8 +255,18 @@ def main(argv):
     if ck.replay:
         hs = [read_replay(ck.replay)]
     else:
-        n = 1500 if ck.tier == "quick" else 60000
+        n = 1500 if ck.tier == "quick" else 20000
         hs = CORPUS + [gen_history(ck.rng) for _ in range(n)]
+    mix = {}
+    for h in hs:
+        for l in h:
+            k = "op_" + (l.split() or ["?"])[0]
+            mix[k] = mix.get(k, 0) + 1
+    ck.cov["counters"].update(mix)
+    ck.cov["counters"]["histories_with_swap"] = sum(1 for h in hs if any(l.startswith("swap ") for l in h))
+    ck.cov["counters"]["histories_with_device_free_over_pool"] = sum(
+        1 for h in hs if any(l.startswith("reserve ") for l in h) and any(l.startswith(("free d", "drop d")) for l in h))
+    ck.cov["counters"]["histories_with_dontUseRefs"] = sum(1 for h in hs if any(l.startswith("norefs ") for l in h))
     supp = os.path.join(VERIF, "harness", "h_gc.lsan.supp")
     env = {"LSAN_OPTIONS": "suppressions=%s:print_suppressions=0" % supp}
     ck.correspond(hb, db, hs, label="handles", nontrivial=nontrivial, timeout=3000, env=env,
